@@ -17,6 +17,8 @@ if ! c20build -tags "verif vsave"; then
 	fi
 	echo "note: saveOutputs entry point not available on this tree (see build log); driving FormatFile only" >&2
 fi
+# tier 2b: the same driver built with the race detector drives the real saveOutputs free-running
+(cd "$SCR/repo" && CGO_ENABLED=1 go build -trimpath -race -tags "verif vsave" -o "$SCR/bin/c20save" ./cmd) >"$SCR/build-save.log" 2>&1 || rm -f "$SCR/bin/c20save"
 # free-running tiers, with the race detector when cgo is available
 sed "s#=> /repo#=> $SCR/repo-pristine#" "$VERIF/go.mod" > "$SCR/pristine.mod"
 cp "$VERIF/go.sum" "$SCR/pristine.sum"
